@@ -57,7 +57,8 @@ def chk(v):
 
 
 def rnd(x):
-    return 4 * EPS * abs(x)
+    # relative rounding error of one operation, plus the absolute error of results in the subnormal range
+    return 4 * EPS * abs(x) + 2e-323
 
 
 def need_num(*vs):
